@@ -173,7 +173,7 @@ func c02Decos(base *XElem, thorough bool) []Deco {
 	var ds []Deco
 	els := base.elems()
 	attrNames := []string{"x", "x-y", "n:x", "X"}
-	vals := []string{"v", " v ", "1.0", "true", "<&\"'>", "it's", "é\tü\n", "007", "&amp;", "]]>", "say \"hi\"", "3.14159265", "16777217", "-1.7976931348623157e308"}
+	vals := []string{"v", " v ", "1.0", "true", "<&\"'>", "it's", "é\tü\n", "007", "&amp;", "]]>", "say \"hi\"", "3.14159265", "16777217", "-1.7976931348623157e308", "a\ufffdb\U0001F600", "18446744073709551615"}
 	renames := []string{"B", "a-b", "n:a"}
 	for i, e := range els {
 		nk := len(e.Items)
